@@ -60,13 +60,23 @@ type c04Result struct {
 // HarnessC04_Concurrent: one goroutine sends requests, another reads and decodes the
 // responses on the same connection; every schedule of their synchronisation operations.
 func HarnessC04_Concurrent() {
-	nreq := 1
-	if vTier() == 1 {
-		nreq = 1 + vChoice(2)
-	}
+	nreq := 1 + vChoice(2)
 	t := &answeringTransport{ready: make(chan []byte, 4), consumed: make(chan struct{}, 4)}
 	t.slow = vChoice(2) == 1
+	// reversed: both requests are pipelined and the peer answers the second one first
+	reversed := nreq == 2 && !t.slow && vChoice(2) == 1
 	p := NewProtocol(t)
+	if vChoice(2) == 1 {
+		// a response nobody asked for arrives first: it is refused and must leave the
+		// connection usable for the tracked requests that follow
+		stray := NewCreateStreamResPacket(amf0.Number(77777))
+		sb, _ := stray.MarshalBinary()
+		sm := NewMessage()
+		sm.MessageType = MessageTypeAMF0Command
+		sm.Payload = sb
+		_, serr := p.DecodeMessage(sm)
+		vAssert(serr != nil, "a response without an outstanding request is an error")
+	}
 	var reqs []Packet
 	var kinds []int
 	off := 0
@@ -79,7 +89,7 @@ func HarnessC04_Concurrent() {
 		} else {
 			cs := NewCreateStreamPacket()
 			cs.TransactionID = amf0.Number(math.Float64frombits(vU64()))
-			vAssume(float64(cs.TransactionID) > 1.5) // a positive id distinct from connect's fixed id 1
+			vAssume(vAnd(float64(cs.TransactionID) > 1.5, float64(cs.TransactionID) < 70000)) // positive, distinct from connect's fixed id 1 and from the stray response
 			for _, o := range reqs {
 				if oc, ok := o.(*CreateStreamPacket); ok {
 					vAssume(float64(oc.TransactionID) != float64(cs.TransactionID))
@@ -99,6 +109,11 @@ func HarnessC04_Concurrent() {
 		sd := newDuplex()
 		NewProtocol(sd).WritePacket(res, 0)
 		t.responses = append(t.responses, sd.out.data)
+	}
+	if reversed {
+		// both answers become readable once the second request has left, second one first
+		t.reqEnd[0] = t.reqEnd[1]
+		t.responses[0], t.responses[1] = t.responses[1], t.responses[0]
 	}
 	done := make(chan c04Result)
 	go func() {
